@@ -8,6 +8,7 @@ against Memo (Val_Calls, VerdictC14).  Send + Sync is asserted at compile time i
 check builds: a tree whose interpreters are not Send + Sync makes that build fail with E0277, reported as a violation."""
 import json
 import os
+import subprocess
 import vlib
 from checks import streams
 
@@ -27,6 +28,25 @@ def exec_validate_threads(ctx, req, nthreads):
         ctx.failures.append(dict(verdict="harness-child-died", cls="harness-child-died",
                                  sig=dict(verdict="harness-child-died", rc=h["rc"], stderr=h["stderr"][-500:])))
         return None
+    # the same calls in a process with another environment (locale, time zone, home, language variables): fresh-interpreter results
+    # only, relabelled "env" and appended to the history -- a result may depend on the arguments only
+    obs_env = ctx.path("obs_env.ndjson")
+    env2 = dict(os.environ, LC_ALL="fr_CH.UTF-8", LANG="tr_TR.UTF-8", LC_NUMERIC="de_DE.UTF-8", LANGUAGE="fr_CH:de", TZ="Pacific/Kiritimati",
+                HOME="/nonexistent", TEXT2NUM_LANG="nl", RUST_LOG="trace", NO_COLOR="1", COLUMNS="20")
+    p2 = subprocess.run([vlib.THREADS_BIN, req, obs_env, "0", str(ctx.seed)], env=env2, stdout=subprocess.PIPE, stderr=subprocess.PIPE)
+    if p2.returncode != 0:
+        ctx.failures.append(dict(verdict="harness-child-died", cls="harness-child-died",
+                                 sig=dict(verdict="harness-child-died", rc=p2.returncode, stderr=p2.stderr.decode("utf-8", "replace")[-500:])))
+        return None
+    nenv = 0
+    with open(obs, "a", encoding="utf-8") as f:
+        for line in open(obs_env, encoding="utf-8"):
+            if '"who":"fresh"' in line:
+                f.write(line.replace('"who":"fresh"', '"who":"env"', 1))
+                nenv += 1
+    h["records"] += nenv
+    h["stdout"] += p2.stdout.decode("utf-8", "replace")
+    h["stderr"] += p2.stderr.decode("utf-8", "replace")
     noise = len(h["stdout"]) + len(h["stderr"])
     vlib.log("bytes written by the calls on stdout + stderr: %d" % noise)
     with open(obs, "a", encoding="utf-8") as f:
@@ -131,7 +151,8 @@ def run(ctx):
     ctx.extra["distinct_calls"] = len(reqs)
     ctx.rule = ("call set generated by Gen_Facade (all languages' words and seeded texts through every language, concrete type and facade, "
                 "text API and word-by-word apply); history = fresh-interpreter reference + 2 sequential passes + %d threads x %d calls on one "
-                "shared set of interpreters; non-trivial/distinct = distinct calls" % (nthreads, len(reqs)))
+                "shared set of interpreters + the same calls once more in a process with a different environment (locale, language and time-zone "
+                "variables); non-trivial/distinct = distinct calls" % (nthreads, len(reqs)))
     ctx.assumptions += ["thread schedules are sampled by the OS scheduler, not enumerated; MC_Memo enumerates all interleavings of the model",
                         "Send + Sync of all eight interpreter types is asserted at compile time in the t2n-threads binary (a failure is a violation)"]
     return vlib.finish(ctx)
